@@ -356,4 +356,221 @@ theorem q_step (cfg : Cfg) (s : St) (op : Op) (h : Q cfg s) (hok : (step cfg s o
     · have hm' : cfg.members.contains m = false := by simpa using hm
       rw [hm'] at hok; simp [failed] at hok
 
+/-! ### overlapping operations: assignments of other threads between the steps of an access keep `Q` and the outcome flag -/
+
+theorem ami_ok (cfg : Cfg) (m : String) (x : Val) (s : St) : (announceMemberIn cfg m x s).ok = s.ok := by
+  unfold announceMemberIn; split <;> rfl
+
+theorem setMembers_ok (cfg : Cfg) (ms : List String) (d : Dict) : ∀ s, (setMembers cfg ms d s).ok = s.ok := by
+  induction ms with
+  | nil => intro s; rfl
+  | cons m ms ih =>
+    intro s
+    simp only [setMembers]
+    split
+    · rfl
+    · rw [ih, ami_ok]
+
+theorem announceStruct_ok (cfg : Cfg) (d : Dict) (s : St) : (announceStruct cfg d s).ok = s.ok := by
+  unfold announceStruct
+  split
+  · rfl
+  · show (setMembers cfg cfg.members d _).ok = s.ok
+    rw [setMembers_ok]
+
+theorem assignStruct_ok (cfg : Cfg) (d : Dict) (s : St) : (assignStruct cfg d s).ok = s.ok := by
+  unfold assignStruct
+  split
+  · exact announceStruct_ok cfg d s
+  · rfl
+
+theorem announceMember_ok (cfg : Cfg) (m : String) (x : Val) (s : St) : (announceMember cfg m x s).ok = s.ok := by
+  unfold announceMember
+  split
+  · rfl
+  · show (assignStruct cfg _ _).ok = s.ok
+    rw [assignStruct_ok]
+
+theorem astep_ok (cfg : Cfg) (a : AOp) (s : St) : (astep cfg s a).ok = s.ok := by
+  cases a with
+  | assignStruct v => exact assignStruct_ok cfg v s
+  | assignMember m v =>
+    simp only [astep]
+    split
+    · exact announceMember_ok cfg m v s
+    · rfl
+
+theorem interrupt_ok (cfg : Cfg) (ops : List AOp) : ∀ s, (interrupt cfg ops s).ok = s.ok := by
+  induction ops with
+  | nil => intro s; rfl
+  | cons a ops ih => intro s; simp only [interrupt, List.foldl_cons] at ih ⊢; rw [ih, astep_ok]
+
+theorem q_astep (cfg : Cfg) (a : AOp) (s : St) (h : Q cfg s) : Q cfg (astep cfg s a) := by
+  cases a with
+  | assignStruct v => exact q_assignStruct cfg v s h
+  | assignMember m v =>
+    simp only [astep]
+    split
+    · exact q_announceMember cfg m v s h
+    · exact h
+
+theorem q_interrupt (cfg : Cfg) (ops : List AOp) : ∀ s, Q cfg s → Q cfg (interrupt cfg ops s) := by
+  induction ops with
+  | nil => intro s h; exact h
+  | cons a ops ih => intro s h; simp only [interrupt, List.foldl_cons] at ih ⊢; exact ih _ (q_astep cfg a s h)
+
+theorem lq_readIterO (cfg : Cfg) (r : String → RRes Val) (ov : Overlap) (n : Nat) (l : Loop) (m : String) (h : LQ cfg n l) :
+    LQ cfg (n + 1) (readIterO cfg r ov l m) := by
+  unfold readIterO
+  rcases h with ⟨hs, hq, hn⟩ | ⟨hs, hn⟩
+  · simp only [hs, Bool.false_eq_true, if_false]
+    have hq1 := q_interrupt cfg (ov.before m) l.st hq
+    split
+    · split
+      · exact Or.inr ⟨rfl, by simp; omega⟩
+      · exact Or.inl ⟨rfl, q_ami cfg m _ _ hq1, by simp [hn]⟩
+    · split
+      · exact Or.inr ⟨rfl, by simp; omega⟩
+      · exact Or.inl ⟨rfl, hq1, by simp [hn]⟩
+  · simp only [hs, if_true]; exact Or.inr ⟨hs, by omega⟩
+
+theorem lq_writeIterO (cfg : Cfg) (v : Dict) (w : String → WRes Val) (ov : Overlap) (n : Nat) (l : Loop) (m : String)
+    (h : LQ cfg n l) : LQ cfg (n + 1) (writeIterO cfg v w ov l m) := by
+  unfold writeIterO
+  rcases h with ⟨hs, hq, hn⟩ | ⟨hs, hn⟩
+  · simp only [hs, Bool.false_eq_true, if_false]
+    have hq1 := q_interrupt cfg (ov.before m) l.st hq
+    split
+    · exact Or.inr ⟨rfl, by simp; omega⟩
+    · split
+      · split
+        · exact Or.inr ⟨rfl, by simp; omega⟩
+        · exact Or.inl ⟨rfl, q_ami cfg m _ _ hq1, by simp [hn]⟩
+        · exact Or.inl ⟨rfl, q_ami cfg m _ _ hq1, by simp [hn]⟩
+      · exact Or.inl ⟨rfl, q_ami cfg m _ _ hq1, by simp [hn]⟩
+  · simp only [hs, if_true]; exact Or.inr ⟨hs, by omega⟩
+
+theorem q_finishLoopO (cfg : Cfg) (isRead : Bool) (ov : Overlap) (l : Loop) (h : LQ cfg cfg.members.length l)
+    (hok : (finishLoopO cfg isRead ov l).ok = true) : Q cfg (finishLoopO cfg isRead ov l) := by
+  unfold finishLoopO at hok ⊢
+  simp only at hok ⊢
+  by_cases hlt : l.result.length < cfg.members.length
+  · simp [hlt, failedExc] at hok
+  · simp only [hlt, if_false] at hok ⊢
+    rcases h with ⟨_, hq, _⟩ | ⟨_, hn⟩
+    · have hq2 := q_interrupt cfg ov.afterRead _ (q_interrupt cfg ov.atEnd _ hq)
+      by_cases hw : wf cfg l.result = true
+      · simp only [hw, if_true]; exact q_fine cfg _ (q_announceStruct cfg _ _ hw hq2)
+      · simp [hw, failed] at hok
+    · exact absurd hn hlt
+
+theorem q_readStructO (cfg : Cfg) (r : String → RRes Val) (ov : Overlap) (s : St) (h : Q cfg s)
+    (hok : (readStructO cfg r ov s).ok = true) : Q cfg (readStructO cfg r ov s) := by
+  unfold readStructO at hok ⊢
+  have := lq_foldl cfg (readIterO cfg r ov) (lq_readIterO cfg r ov) cfg.members 0 { st := s } (Or.inl ⟨rfl, h, rfl⟩)
+  rw [Nat.zero_add] at this
+  exact q_finishLoopO cfg true ov _ this hok
+
+theorem q_writeStructO (cfg : Cfg) (v : Dict) (w : String → WRes Val) (ov : Overlap) (s : St) (h : Q cfg s)
+    (hok : (writeStructO cfg v w ov s).ok = true) : Q cfg (writeStructO cfg v w ov s) := by
+  unfold writeStructO at hok ⊢
+  by_cases hv : wf cfg v = true
+  · simp only [hv, Bool.not_true, Bool.false_eq_true, if_false] at hok ⊢
+    have := lq_foldl cfg (writeIterO cfg v w ov) (lq_writeIterO cfg v w ov) cfg.members 0 { st := s } (Or.inl ⟨rfl, h, rfl⟩)
+    rw [Nat.zero_add] at this
+    exact q_finishLoopO cfg false ov _ this hok
+  · simp [hv, failed] at hok
+
+theorem q_readMemberAV (cfg : Cfg) (m : String) (r : RRes Dict) (iv : List (List AOp)) (k : Nat) (s : St) (h : Q cfg s)
+    (hok : (readMemberAV cfg m r iv k s).1.ok = true) : Q cfg (readMemberAV cfg m r iv k s).1 := by
+  have key : ∀ (ret : Option Val) (s2 : St), Q cfg s2 →
+      (match ret with
+        | none => (failed (memberError m s2), (none : Option Val))
+        | some x => (fine (announceMember cfg m x s2), some x)).1.ok = true →
+      Q cfg (match ret with
+        | none => (failed (memberError m s2), (none : Option Val))
+        | some x => (fine (announceMember cfg m x s2), some x)).1 := by
+    intro ret s2 hq2 hk
+    cases ret with
+    | none => simp [failed] at hk
+    | some x => exact q_fine cfg _ (q_announceMember cfg m x s2 hq2)
+  simp only [readMemberAV] at hok ⊢
+  by_cases h1 : (readStructC cfg r (interrupt cfg (ivAt iv k) s)).ok = true
+  · have hq1 := q_readStructC cfg r _ (q_interrupt cfg (ivAt iv k) s h) h1
+    have hq2 := q_interrupt cfg (ivAt iv (k + 1)) _ hq1
+    simp only [h1, Bool.not_true, Bool.false_eq_true, if_false] at hok ⊢
+    exact key _ _ hq2 hok
+  · have hf : (readStructC cfg r (interrupt cfg (ivAt iv k) s)).ok = false := by simpa using h1
+    simp only [hf, Bool.not_false, if_true] at hok
+    rw [memberError_ok, interrupt_ok, hf] at hok
+    cases hok
+
+theorem q_readMemberBV (cfg : Cfg) (m : String) (rB : RRes Val) (iv : List (List AOp)) (k : Nat) (s : St) (h : Q cfg s)
+    (hok : (readMemberBV cfg m rB iv k s).1.ok = true) : Q cfg (readMemberBV cfg m rB iv k s).1 := by
+  simp only [readMemberBV] at hok ⊢
+  cases rB with
+  | fail e => simp [failedExc] at hok
+  | ok x => exact q_fine cfg _ (q_announceMember cfg m x _ (q_interrupt cfg (ivAt iv k) s h))
+
+theorem q_writeMemberAO (cfg : Cfg) (m : String) (v : Val) (w : WRes Dict) (r : RRes Dict) (rB : RRes Val)
+    (iv : List (List AOp)) (s : St) (h : Q cfg s) (hok : (writeMemberAO cfg m v w r rB iv s).ok = true) :
+    Q cfg (writeMemberAO cfg m v w r rB iv s) := by
+  have hqa := q_interrupt cfg (ivAt iv 0) s h
+  have hq1i := q_interrupt cfg (ivAt iv 1) _ hqa
+  have key : ∀ (sr : St × Option Val) (k : Nat), (sr.1.ok = true → Q cfg sr.1) →
+      (if !sr.1.ok then sr.1 else
+        match sr.2 with
+        | none => failed sr.1
+        | some x => fine (announceMember cfg m x (interrupt cfg (ivAt iv k) sr.1))).ok = true →
+      Q cfg (if !sr.1.ok then sr.1 else
+        match sr.2 with
+        | none => failed sr.1
+        | some x => fine (announceMember cfg m x (interrupt cfg (ivAt iv k) sr.1))) := by
+    intro sr k hsr hk
+    obtain ⟨s', ret⟩ := sr
+    by_cases h2 : s'.ok = true
+    · simp only [h2, Bool.not_true, Bool.false_eq_true, if_false] at hk ⊢
+      cases ret with
+      | none => simp [failed] at hk
+      | some x => exact q_fine cfg _ (q_announceMember cfg m x _ (q_interrupt cfg _ _ (hsr h2)))
+    · have hf : s'.ok = false := by simpa using h2
+      simp [hf] at hk
+  simp only [writeMemberAO] at hok ⊢
+  by_cases h1 : (writeStructC cfg ((interrupt cfg (ivAt iv 0) s).struct.set m v) w
+      (interrupt cfg (ivAt iv 1) (interrupt cfg (ivAt iv 0) s))).ok = true
+  · have hq1 := q_writeStructC cfg _ w _ hq1i h1
+    simp only [h1, Bool.not_true, Bool.false_eq_true, if_false] at hok ⊢
+    by_cases hR : cfg.hasR m = true
+    · simp only [hR, ↓reduceIte] at hok ⊢
+      exact key _ 3 (fun hk => q_readMemberBV cfg m rB iv 2 _ hq1 hk) hok
+    · simp only [hR] at hok ⊢
+      exact key _ 4 (fun hk => q_readMemberAV cfg m r iv 2 _ hq1 hk) hok
+  · have hf : (writeStructC cfg ((interrupt cfg (ivAt iv 0) s).struct.set m v) w
+        (interrupt cfg (ivAt iv 1) (interrupt cfg (ivAt iv 0) s))).ok = false := by simpa using h1
+    simp [hf] at hok
+
+theorem q_ostep (cfg : Cfg) (s : St) (op : OOp) (h : Q cfg s) (hok : (ostep cfg s op).ok = true) : Q cfg (ostep cfg s op) := by
+  cases op with
+  | seq op => exact q_step cfg s op h hok
+  | readStructO rA rB ov =>
+    simp only [ostep] at hok ⊢
+    split
+    · rename_i hc; simp only [hc, if_true] at hok; exact q_readStructC cfg rA _ (q_interrupt cfg _ _ h) hok
+    · rename_i hc; simp only [hc] at hok; exact q_readStructO cfg rB ov s h hok
+  | writeStructO v wA wB ov =>
+    simp only [ostep] at hok ⊢
+    split
+    · rename_i hc; simp only [hc, if_true] at hok; exact q_writeStructC cfg v wA _ (q_interrupt cfg _ _ h) hok
+    · rename_i hc; simp only [hc] at hok; exact q_writeStructO cfg v wB ov s h hok
+  | readMemberO m rA iv =>
+    simp only [ostep] at hok ⊢
+    split
+    · rename_i hc; simp only [hc, if_true] at hok; exact q_readMemberAV cfg m rA iv 0 s h hok
+    · rename_i hc; simp only [hc] at hok; simp [failed] at hok
+  | writeMemberO m v wA rA rB iv =>
+    simp only [ostep] at hok ⊢
+    split
+    · rename_i hc; simp only [hc, if_true] at hok; exact q_writeMemberAO cfg m v wA rA rB iv s h hok
+    · rename_i hc; simp only [hc] at hok; simp [failed] at hok
+
 end Frappy.ExtParams
